@@ -326,7 +326,7 @@ def summarize(results, tier):
                 "interpreter under one scripted resolution path (or one sampler family/parameter vector on a quantile grid); "
                 "distinct = distinct (execution-trace hash, resolution-path hash); non-trivial = at least one random request "
                 "was a real choice point and the case was judged (ok/violation)",
-        "samples": samples,
+        "samples": samples or [{"note": "no sample recorded"}],
         "outcomes": dict(oc),
         "case_kinds": dict(kinds),
         "judged_lockstep_with_draws": nontrivial,
